@@ -60,7 +60,9 @@ def gen_solid(rng):
     """program leaving one manifold on the stack, tags describing it"""
     r = rng.random()
     if r < .3:
-        return shape(rng) + " " + xform(rng), "single"
+        # a quarter of the single solids stay axis-aligned (translation by multiples of 1/4 only): vertical and horizontal
+        # faces, equal coordinates - the "exact ties and zeros" stratum for Project / Slice / RayCast / WindingNumber
+        return shape(rng) + " " + xform(rng, lattice=rng.random() < .25), "single"
     if r < .65:
         op = rng.choice(["add", "sub", "int", "sub"])
         p = "%s %s %s %s %s" % (shape(rng), xform(rng), shape(rng), "tr %s %s %s" % (R4(rng, -.5, .5), R4(rng, -.5, .5), R4(rng, -.5, .5)), op)
@@ -80,8 +82,54 @@ def gen_solid(rng):
     return "cube 2 2 2 1 cube 1 1 1 1 %s sub" % ("rot %s %s %s" % (R4(rng, 0, 90), R4(rng, 0, 90), R4(rng, 0, 90))), "cavity"
 
 
-def gen_queries(rng, scale=1.0):
+def structured_dirs():
+    """directions with exact ties and zeros between components: one/two zero components, |dx|=|dy| (every axis pair, every
+    sign pattern) with a zero, tiny, smaller or larger third component, all three equal"""
+    import itertools
+    out = []
+    for third in (0.0, 2.0 ** -20, 2.0 ** -40, 0.5, 2.0):
+        for ax in range(3):                       # the axis carrying the odd component
+            for sa, sb, sc in itertools.product((1, -1), repeat=3):
+                d = [float(sa), float(sb)]
+                d.insert(ax, sc * third)
+                out.append(tuple(d))
+    for ax in range(3):
+        for sg in (1, -1):
+            d = [0.0, 0.0, 0.0]; d[ax] = float(sg); out.append(tuple(d))
+    for sa, sb, sc in itertools.product((1, -1), repeat=3):
+        out.append((float(sa), float(sb), float(sc)))
+    return sorted(set(out))
+
+
+STRUCT_DIRS = structured_dirs()
+TIE_DIRS = [d for d in STRUCT_DIRS if sorted(map(abs, d))[1] == 1.0 and sorted(map(abs, d))[2] == 1.0 and sorted(map(abs, d))[0] < 0.001]
+
+
+def structured_ray(rng, scale, centre=(0.0, 0.0, 0.0)):
+    """segment through a dyadic point near `centre` whose direction e - o has exactly tied / zero components
+    (all numbers dyadic with few bits, so o, e and e - o are exact in binary64)"""
+    # half of the rays come from the sharpest stratum: two components tied in magnitude, third zero or tiny
+    d = rng.choice(TIE_DIRS) if rng.random() < .5 else rng.choice(STRUCT_DIRS)
+    c = [centre[k] + rng.randrange(-40, 41) / 64.0 for k in range(3)]
+    h = rng.choice([1.5, 2.0, 3.0, 4.5])
+    o = [(c[k] - h * d[k]) * scale for k in range(3)]
+    e = [(c[k] + h * d[k]) * scale for k in range(3)]
+    if rng.random() < .3:        # one end inside / near the middle: odd parity cases
+        e = [c[k] * scale for k in range(3)]
+    return "ray %s" % " ".join(repr(x) for x in o + e)
+
+
+def gen_queries(rng, scale=1.0, centres=((0.0, 0.0, 0.0),)):
     q = ["meas"]
+    for _ in range(4):
+        q.append(structured_ray(rng, scale, rng.choice(centres)))
+    for _ in range(2):
+        # query points with equal / zero coordinates
+        t = rng.randrange(-60, 61) / 64.0
+        u = rng.randrange(-60, 61) / 64.0
+        c = rng.choice(centres)
+        p = rng.choice([(t, t, t), (t, t, 0.0), (t, -t, u), (t, 0.0, 0.0), (0.0, t, t), (u, t, t), (t, u, -t)])
+        q.append("wind %s" % " ".join(repr((p[k] + c[k]) * scale) for k in range(3)))
     for _ in range(2):
         q.append("ray %s" % " ".join(repr(round(rng.uniform(-3, 3), 3) * scale) for _ in range(6)))
     q.append("ray %s" % " ".join(repr(round(rng.uniform(-1, 1), 3) * scale) for _ in range(6)))
@@ -105,6 +153,9 @@ def gen_gap(rng):
         d = rng.choice([.25, .5, 1.0, 1.75, 3.0]) if lat else round(rng.uniform(.05, 3), 3)
         sh = "tr %r %r %r" % ((2 + d) if lat else (5.3 + d), rng.randrange(-2, 3) / 2.0 if lat else round(rng.uniform(-1, 1), 3),
                               rng.randrange(-2, 3) / 2.0 if lat else 0.0)
+        if lat and rng.random() < .35:
+            # diagonal offsets with equal coordinates: closest features are edge-edge / vertex-vertex with exact ties
+            sh = rng.choice(["tr %r %r 0.0", "tr %r %r %r"]).replace("%r", repr(2 + d))
         if not lat:
             a += " rot %s %s %s" % (R4(rng, -90, 90), R4(rng, -90, 90), R4(rng, -90, 90))
             b += " rot %s %s %s" % (R4(rng, -90, 90), R4(rng, -90, 90), R4(rng, -90, 90))
@@ -187,7 +238,8 @@ def build_cases(cx):
             sc = 2.0 ** rng.choice([-40, -20, 20, 40])
             p += " sc %r %r %r" % (sc, sc, sc)
             k += "*2^k"
-        cases.append((str(len(cases)), "CASE %d %s ; %s" % (len(cases), p, gen_queries(rng, sc)), k))
+        centres = ((0.0, 0.0, 0.0), (6.0, 0.0, 0.0)) if (k.startswith("components") and " tr " not in p.split("compose")[-1] and " rot " not in p.split("compose")[-1]) else ((0.0, 0.0, 0.0),)
+        cases.append((str(len(cases)), "CASE %d %s ; %s" % (len(cases), p, gen_queries(rng, sc, centres)), k))
     for _ in range(n_gap):
         p, k = gen_gap(rng)
         cases.append((str(len(cases)), "CASE %d %s" % (len(cases), p), "gap-" + k))
@@ -311,7 +363,10 @@ def run(cx):
                     pass
         elif chk == "ray":
             stats["ray"] += 1
-            nh, cr, dg, wo, we, srt, onsurf, onseg = v
+            nh, cr, dg, wo, we, srt, onsurf, onseg = v[:8]
+            tpar = v[8] if len(v) > 8 else 1
+            if not tpar:
+                viol("raycast-distance-inconsistent", cid, "a RayCast hit's distance t does not satisfy origin + t*(endpoint-origin) = position within 2^-36*scale (exact test)", l)
             stats["ray_hits"] += nh
             if not srt:
                 viol("raycast-unsorted", cid, "RayCast hits are not sorted by distance within [0,1]", l)
